@@ -496,3 +496,58 @@ func TestC20_R_VeryWideNode(t *testing.T) {
 		}
 	}
 }
+
+const c20RepeatRule = "case = hand-assembled file DAG that may lack BlockSizes / FileSize (the reader then measures children by opening them, so the request order is not the depth-first one and is not compared with it) read in full several times: through fresh nodes and repeatedly through ONE node (AsBytes, two readers, preload then read); " +
+	"oracle = 'identical on every run': every full read requests the blocks in the same order as the first one; non-trivial = file without BlockSizes and with dag-pb children; distinct by (shape, route)"
+
+// TestC20_P_OldStyleRepeatable: for files whose sizes are not declared the order is whatever measuring makes it, but it has
+// to be the same order every time.
+func TestC20_P_OldStyleRepeatable(t *testing.T) {
+	ev := newEvid(t, c20RepeatRule)
+	rapid.Check(t, func(t *rapid.T) {
+		fc := genHandFileDAG(t, true)
+		ls := fc.St.LinkSystem()
+		full := func(n datamodel.Node, how int) ([]cid.Cid, error) {
+			fc.St.ResetLogs()
+			var err error
+			if how == 0 {
+				_, err = n.AsBytes()
+			} else {
+				rs, e := n.(datamodel.LargeBytesNode).AsLargeBytes()
+				if e != nil {
+					return nil, e
+				}
+				_, err = io.Copy(io.Discard, rs)
+			}
+			return firstOccurrences(fc.St.ReadLog()), err
+		}
+		fresh := func() datamodel.Node {
+			n, err := loadReified(ls, fc.Root, "unixfs")
+			if err != nil {
+				t.Fatalf("harness: %v", err)
+			}
+			return n
+		}
+		first, err := full(fresh(), 0)
+		if err != nil {
+			t.Fatalf("C20 [%s]: %v", fc.Desc, err)
+		}
+		shared := fresh()
+		for run := 1; run <= 4; run++ {
+			n := shared
+			if run == 1 {
+				n = fresh()
+			}
+			got, err := full(n, run%2)
+			if err != nil {
+				t.Fatalf("C20 [%s] run %d: %v", fc.Desc, run, err)
+			}
+			if fmt.Sprint(got) != fmt.Sprint(first) {
+				t.Fatalf("C20 [%s]: full read #%d (same node reused from #2 on) requested blocks in the order %v, the first full read in the order %v", fc.Desc, run+1, shortCids(got), shortCids(first))
+			}
+		}
+		old := strings.Contains(fc.Writer, "bs=false")
+		ev.Case(fc.Writer, old, fmt.Sprintf("noBlockSizes:%v", old))
+		ev.Sample(map[string]any{"file": fc.Desc, "blocks": len(first)})
+	})
+}
